@@ -372,6 +372,18 @@ pub fn scenarios(rng: &mut StdRng, quick: bool) -> Vec<Scenario> {
             });
         }
     }
+    // a get that FAILS (one transient read fault) after a newer version was installed while it was
+    // suspended: it holds the last reference to the superseded version and must give it back
+    for p in ["get_before_imm", "get_before_version"] {
+        out.push(Scenario {
+            name: format!("get@{}/flush_compact_readfault", p),
+            victim: Victim::Get { k: 4 },
+            point: p.to_string(),
+            nth: 1,
+            script: "flush_compact_readfault".to_string(),
+            memtable: 4000,
+        });
+    }
     let writer_points: Vec<(&str, usize)> = vec![
         ("write_before_wal", 1),
         ("write_after_wal", 1),
@@ -1086,8 +1098,10 @@ pub fn run_scenario(sc: &Scenario, seed: u64, run_no: u64) -> SchedOutcome {
     sink.emit_json(
         "Reset",
         json!({"run": run_no, "seed": seed, "nk": u.n(), "driver": "sched", "tag": sc.name,
-               "faults": sc.script == "queue_wal_fault"}),
+               "faults": sc.script == "queue_wal_fault" || sc.script == "flush_compact_readfault"}),
     );
+    // (the read-fault scenario needs reads that really go to the files)
+    crate::common::set_cache_cap(if sc.script == "flush_compact_readfault" { 2 } else { 0 });
     let opts = OptSet {
         memtable: sc.memtable,
         file: 600,
@@ -1156,7 +1170,8 @@ pub fn run_scenario(sc: &Scenario, seed: u64, run_no: u64) -> SchedOutcome {
     let mut helpers: Vec<(String, mpsc::Receiver<()>)> = vec![];
     if parked {
         match sc.script.as_str() {
-            "overwrite_rotate" | "overwrite_flush" | "flush_compact" | "delete_flush_compact" => {
+            "overwrite_rotate" | "overwrite_flush" | "flush_compact" | "delete_flush_compact"
+            | "flush_compact_readfault" => {
                 // overwrite the key the victim looks at, and enough other data to rotate
                 env.put(hot, 40);
                 if sc.script == "delete_flush_compact" {
@@ -1172,7 +1187,10 @@ pub fn run_scenario(sc: &Scenario, seed: u64, run_no: u64) -> SchedOutcome {
                     let _ = db.verif_force_flush();
                     let _ = wait_quiescent(&db, Duration::from_secs(60));
                 }
-                if sc.script == "flush_compact" || sc.script == "delete_flush_compact" {
+                if sc.script == "flush_compact"
+                    || sc.script == "delete_flush_compact"
+                    || sc.script == "flush_compact_readfault"
+                {
                     db.compact_range(None..None);
                     let _ = wait_quiescent(&db, Duration::from_secs(60));
                     env.put(hot, 40);
@@ -1317,10 +1335,23 @@ pub fn run_scenario(sc: &Scenario, seed: u64, run_no: u64) -> SchedOutcome {
             _ => {}
         }
     }
+    let readfault = parked && sc.script == "flush_compact_readfault";
+    if readfault {
+        // the next call into the filesystem - the victim's table open / block read - fails once
+        fs.set_read_faults(true);
+        fs.set_fault(crate::simfs::FaultMode::At {
+            index: fs.op_counter(),
+            sticky: false,
+        });
+    }
     ctl.release("v");
     if vrx.recv_timeout(Duration::from_secs(60)).is_err() {
         hang("victim after release", &sink);
         status = "hang".into();
+    }
+    if readfault {
+        fs.set_fault(crate::simfs::FaultMode::Off);
+        fs.set_read_faults(false);
     }
     for (name, rx) in helpers {
         if rx.recv_timeout(Duration::from_secs(60)).is_err() {
@@ -1335,6 +1366,31 @@ pub fn run_scenario(sc: &Scenario, seed: u64, run_no: u64) -> SchedOutcome {
         }
         env.scan(false, false);
         let _ = wait_quiescent(&db, Duration::from_secs(60));
+        // nobody reads any more: after one more flush (whose deletion pass also reclaims what an
+        // earlier pass had to leave to a racing reader) exactly ONE version is linked and only
+        // its tables are on disk
+        if sc.script == "flush_compact_readfault" || sc.script == "flush_compact" {
+            env.put(1, 40);
+            let _ = db.verif_force_flush();
+            if let Some(d) = wait_quiescent(&db, Duration::from_secs(60)) {
+                let cur: Vec<u64> = d.levels.iter().flat_map(|l| l.iter().map(|f| f.number)).collect();
+                let rootp = std::path::Path::new(ROOT);
+                let tables: Vec<i64> = fs
+                    .disk()
+                    .listing()
+                    .iter()
+                    .filter_map(|p| {
+                        let (kind, n) = crate::simfs::classify(rootp, std::path::Path::new(p));
+                        if kind == "table" { Some(n) } else { None }
+                    })
+                    .collect();
+                sink.emit_json(
+                    "Quiet",
+                    json!({"live": d.live_versions, "cur": cur, "tables": tables,
+                           "bad": d.bad_state.is_some()}),
+                );
+            }
+        }
     }
     for p in peek_panics() {
         sink.emit_json(
@@ -1436,6 +1492,12 @@ pub fn cmd(m: &HashMap<String, String>) -> i32 {
         for sc in scs {
             if let Some(o) = &only {
                 if &sc.name != o {
+                    continue;
+                }
+            }
+            // --match <text>: only the scenarios whose name contains the text
+            if let Some(t) = m.get("match") {
+                if !sc.name.contains(t.as_str()) {
                     continue;
                 }
             }
